@@ -222,6 +222,17 @@ MQuiesce(s, e) ==
   ELSE IF ~e.sock_none THEN MFail(s, "C14.object_keeps_its_socket")
   ELSE MRes(s, TRUE, "")
 
+\* WebSocketApp.send() from application code - beyond the listed properties (clauses X13.*, reported as drift):
+\* while a connection is up the frame reaches the peer, afterwards the call raises connection-closed
+MAppSend(s, e) ==
+  LET k == Cur(s)
+      up == s.active /\ k >= s.firstCid /\ k >= 1 /\ s.conns[k].up /\ s.conns[k].ending = "none" /\ ~s.appClose /\ s.nclose = 0
+  IN IF e.ok /\ ~e.delivered THEN MFail(s, "X13.send_reported_success_but_nothing_reached_the_peer")
+     ELSE IF up /\ ~e.ok THEN MFail(s, "X13.send_refused_on_an_open_connection")
+     ELSE IF ~e.ok /\ e.cls # "WebSocketConnectionClosedException" THEN MFail(s, "X13.send_on_closed_connection_raised_something_else")
+     ELSE IF ~s.active /\ e.ok THEN MFail(s, "X13.send_after_the_run_ended_succeeded")
+     ELSE MRes(s, TRUE, "")
+
 LogOf(e) ==
   CASE e.ev = "cb" -> <<<<e.name, e.t>>>>
     [] e.ev = "dial" -> <<<<"dial", e.outcome, e.t>>>>
@@ -241,6 +252,7 @@ MStep0(s, e) ==
                                            !.stop = @ \/ e.kb], TRUE, "")
     [] e.ev = "app_close" -> MRes([s EXCEPT !.appClose = TRUE, !.appCloseT = e.t, !.stop = TRUE], TRUE, "")
     [] e.ev = "ping_sent" -> MPingSent(s, e)
+    [] e.ev = "app_send" -> MAppSend(s, e)
     [] e.ev = "tclose" -> IF e.cid + 1 \in 1..Len(s.conns) THEN MRes([s EXCEPT !.conns[e.cid + 1].tclosed = TRUE], TRUE, "") ELSE MRes(s, TRUE, "")
     [] e.ev = "run_ret" -> MRunRet(s, e)
     [] e.ev = "run_raise" -> MRunRaise(s, e)
